@@ -23,6 +23,9 @@ def scenarios(quick):
                             for ct in ((1, 3) if quick else (0, 1, 2, 3, 4)):
                                 out.append(scenario(st, fns, base + [env("CtxCancel", ct, 2)]))
                             out.append(scenario(st, fns, [env("BhTake", 0, id="b")] + base + [env("BhRelease", 2, id="b")]))
+                            # a standalone AcquirePermit(ctx) waiting behind the executions, cancelled or served
+                            out.append(scenario(st, fns, base + [env("BhAcquire", 1, x=7, id="b"), env("BhAcqCancel", 2, x=7), env("BhRelease", 9, id="b")] if False else
+                                                base + [env("BhAcquire", 1, x=7, id="b"), env("BhAcqCancel", 2, x=7)]))
     return out
 
 
